@@ -20,7 +20,7 @@ def gen_histories(rng_seed, stream, n, nops, kinds):
 
 def run_heap_check(rep, tier, seed, stream, props_of_interest, extra_programs=True):
     """model/implementation correspondence on generated histories + monitors; returns per-property monitor hits"""
-    n = 64 if tier == "quick" else 1500
+    n = 64 if tier == "quick" else 500
     nops = 110 if tier == "quick" else 160
     hs = gen_histories(seed, stream, n, nops, ["plain", "burst", "plain", "rare", "burst", "plain", "plain", "fullheap"])
     runs = heap.run_histories(hs)
